@@ -5,7 +5,7 @@ use crate::verif_models::fs as gfs;
 use crate::verif_models::fmtm;
 
 fn mk_dump(cap: usize) -> UnspentCsvDump {
-    UnspentCsvDump { dump_folder: PathBuf::from("d"), writer: BufWriter::with_capacity(cap, gfs::File::ghost(3)), unspents: HashMap::new(), start_height: 0, tx_count: 0, in_count: 0, out_count: 0 }
+    UnspentCsvDump { dump_folder: PathBuf::new() /* empty: [measured] PathBuf::join on a non-empty base runs std's component parser over heap bytes and dominates symbolic execution */, writer: BufWriter::with_capacity(cap, gfs::File::ghost(3)), unspents: HashMap::new(), start_height: 0, tx_count: 0, in_count: 0, out_count: 0 }
 }
 fn key(b: u8, idx: u32) -> Vec<u8> {
     let mut k = vec![0u8; 36];
@@ -16,11 +16,12 @@ fn key(b: u8, idx: u32) -> Vec<u8> {
 }
 
 macro_rules! flush_before_rename {
-    ($name:ident, $entries:expr) => {
+    ($name:ident, $entries:expr, $k:expr) => {
         #[kani::proof]
         #[kani::unwind(14)]
         fn $name() {
-            unsafe { fmtm::CONST_ROWS.v = true; gfs::FAULT_AT.v = kani::any(); }
+            const K: usize = $k;
+            unsafe { fmtm::CONST_ROWS.v = true; if K < gfs::NSCHED { gfs::FAULT_AT.v[K] = true; } }
             let mut cb = mk_dump(4);
             let mut i = 0u8;
             while i < $entries {
@@ -38,24 +39,27 @@ macro_rules! flush_before_rename {
                 Err(e) => {
                     core::mem::forget(e);
                     assert!(unsafe { gfs::RENAMES.v } == 0, "C10:write_failure_leaves_no_final_named_file");
-                    kani::cover!(unsafe { gfs::WRITE_FAILED.v }, "write failed");
+                    assert!(unsafe { gfs::WRITE_FAILED.v }, "C10:completion_fails_only_on_a_write_failure");
                 }
             }
-            kani::cover!(unsafe { !gfs::WRITE_FAILED.v && gfs::WRITE_CALLS.v >= 1 }, "successful run");
+            kani::cover!(unsafe { gfs::WRITE_FAILED.v } == (K < gfs::NSCHED), "run ends as scheduled");
             core::mem::forget(cb);
         }
     };
 }
-//@ id=C10,C07 tier=quick name=c10_unspent_flush_2 timeout=1500 role=flush_before_rename bound=UnspentCsvDump,2-entries,buffer-4,any-write-fault-schedule fn=UnspentCsvDump::on_complete
-flush_before_rename!(c10_unspent_flush_2, 2);
-//@ id=C10,C07 tier=thorough name=c10_unspent_flush_0 timeout=1500 role=flush_before_rename bound=UnspentCsvDump,0-entries(header-only)
-flush_before_rename!(c10_unspent_flush_0, 0);
+//@ id=C10,C07 tier=quick name=c10_unspent_ok timeout=900 role=flush_before_rename bound=UnspentCsvDump,1-entry,buffer-4,fault-free fn=UnspentCsvDump::on_complete
+flush_before_rename!(c10_unspent_ok, 1, usize::MAX);
+//@ id=C10,C07 tier=quick name=c10_unspent_f0 timeout=900 role=flush_before_rename bound=UnspentCsvDump,1-entry,buffer-4,the-(only)-write-call-fails
+flush_before_rename!(c10_unspent_f0, 1, 0);
+//@ id=C10,C07 tier=thorough name=c10_unspent_0_ok timeout=900 role=flush_before_rename bound=UnspentCsvDump,0-entries(header-only),fault-free
+flush_before_rename!(c10_unspent_0_ok, 0, usize::MAX);
 
 // C02: file name; C07 unspent_rows: row content with real formatting (one entry, symbolic small index)
 //@ id=C02,C07 tier=thorough name=c07_unspent_row timeout=5400 role=unspent_rows bound=1-entry,index<10-symbolic,height/value-single-digit,start-7,last-99 mem=20 fn=UnspentCsvDump::on_complete,UnspentCsvDump::on_start
 #[kani::proof]
 #[kani::unwind(70)]
 fn c07_unspent_row() {
+    unsafe { gfs::LOG_NAMES.v = true; }
     unsafe { gfs::LOG_CONTENT.v = true; }
     let idx: u32 = kani::any();
     let h: u64 = kani::any();
@@ -79,7 +83,7 @@ fn c07_unspent_row() {
         assert!(gfs::ACCEPTED.v[3] == n, "C07:header_plus_one_row_per_entry");
         let mut i = 0;
         while i < n && i < gfs::LOGCAP { assert!(gfs::WLOG.v[3][i] == want[i], "C07:row_carries_txid_index_height_value_address"); i += 1; }
-        let wn = b"d/unspent-7-99.csv";
+        let wn = b"unspent-7-99.csv";
         assert!(gfs::RENAMES.v == 1 && gfs::RENAME_TO_LEN.v[0] == wn.len(), "C02:file_name_carries_start_and_last_height");
         let mut i = 0;
         while i < wn.len() { assert!(gfs::RENAME_TO.v[0][i] == wn[i], "C02:file_name_carries_start_and_last_height"); i += 1; }
